@@ -20,6 +20,26 @@ CLAIMED = {
     ),
 }
 
+CLAIMED["C02"] = (
+    "proptest differential + local obligations: x86_64 JIT point/SIMD evaluators vs interpreter and per-opcode reference, all nodes exported",
+    "Generated-input search: random DAGs sized to spill past the 12 native registers and to interleave libm calls with live "
+    "registers, evaluated by the JIT point evaluator and the JIT SIMD evaluator at every slice length 0..=35; each node is checked "
+    "against the reference meaning of its opcode on the JIT's own operand values (so a tolerated NaN / zero-sign difference "
+    "cannot be amplified into a false alarm, and a defect is pinned to one opcode), every output is compared with the interpreter "
+    "on the same tape, and result shapes are checked. Exploration, not proof.",
+    "x86_64 only; aarch64 assembly not exercised. Trusts refsem (60 lines, cross-checked against two repository implementations), "
+    "host libm identical for all callers. Worker processes are children, so a crash in generated code is caught and reported with its input.",
+    "DESIGN.md §3 C02",
+)
+CLAIMED["C03"] = (
+    "proptest local-obligation enclosure check: interval evaluators (interpreter + JIT) vs point values at sampled points of the box; interval transform vs point transform",
+    "Generated-input search over DAGs x boxes (degenerate, tiny, wide, straddling zero and quadrant boundaries) x points of the box; "
+    "per node, using the evaluator's own operand intervals, the point value must lie in the interval (NaN interval / NaN point excused "
+    "as the property states). Exploration of the input space; an unsound interval rule shows up as a concrete (op, operand intervals, point).",
+    "Point values from per-opcode graph evaluation. WGSL shader and aarch64 anchors not reachable on this host. One open finding (rand/mix of a zero) is excluded by construction and reported as KNOWN-FINDING.",
+    "DESIGN.md §3 C03",
+)
+
 NOT_YET = {
 }
 
